@@ -41,6 +41,7 @@ struct Det {
     w: f32,
     h: f32,
     feat: Option<Vec<f32>>,
+    cc: u8, // confidence class: 0 = 0.75 + uid/8192 (legacy); 1..4 = about 0.05 / 0.2 / 0.5 / 1.0, the uid in the low bits
 }
 
 #[derive(Clone, Debug)]
@@ -68,11 +69,24 @@ struct Spec {
     calls: Vec<(u64, Vec<Det>)>,
 }
 
-fn conf_of(uid: u32) -> f32 {
-    assert!(uid < 2048);
-    0.75 + uid as f32 / 8192.0
+const CONF_BASE: [f32; 5] = [0.0, 0.046875, 0.1875, 0.5, 0.9990234375];
+
+/// the box confidence names the detection: legacy 0.75 + uid/8192, or a class base (about 0.05 / 0.2 / 0.5 / 1.0) + uid/2^21
+fn conf_of(d: &Det) -> f32 {
+    assert!(d.uid < 2048);
+    if d.cc == 0 {
+        0.75 + d.uid as f32 / 8192.0
+    } else {
+        CONF_BASE[d.cc as usize] + d.uid as f32 / 2097152.0
+    }
 }
 fn uid_of_conf(c: f32) -> u32 {
+    for b in CONF_BASE.iter().skip(1) {
+        let x = (c - b) * 2097152.0;
+        if x >= 0.0 && x < 2048.0 && x.fract() == 0.0 {
+            return x as u32;
+        }
+    }
     let x = (c - 0.75) * 8192.0;
     if x >= 0.0 && x < 2048.0 && x.fract() == 0.0 {
         x as u32
@@ -91,7 +105,7 @@ impl Spec {
                     .iter()
                     .map(|d| {
                         format!(
-                            "{},{},{},{},{},{},{}",
+                            "{},{},{},{},{},{},{}{}",
                             d.uid,
                             d.q.map(f32b).unwrap_or_else(|| "n".into()),
                             f32b(d.l),
@@ -101,7 +115,8 @@ impl Spec {
                             match &d.feat {
                                 None => "-".to_string(),
                                 Some(v) => v.iter().map(|x| f32b(*x)).collect::<Vec<_>>().join("/"),
-                            }
+                            },
+                            if d.cc == 0 { String::new() } else { format!(",{}", d.cc) }
                         )
                     })
                     .collect();
@@ -160,6 +175,7 @@ impl Spec {
                     w: fb(p[4]),
                     h: fb(p[5]),
                     feat: if p[6] == "-" { None } else { Some(p[6].split('/').map(fb).collect()) },
+            cc: if p.len() > 7 { p[7].parse().unwrap() } else { 0 },
                 });
             }
             calls.push((s.parse().unwrap(), dets));
@@ -249,6 +265,7 @@ fn parse_dets(ds: &str) -> Vec<Det> {
             w: fb(p[4]),
             h: fb(p[5]),
             feat: if p[6] == "-" { None } else { Some(p[6].split('/').map(fb).collect()) },
+            cc: if p.len() > 7 { p[7].parse().unwrap() } else { 0 },
         });
     }
     dets
@@ -258,7 +275,7 @@ fn dets_text(ds: &[Det]) -> String {
     ds.iter()
         .map(|d| {
             format!(
-                "{},{},{},{},{},{},{}",
+                "{},{},{},{},{},{},{}{}",
                 d.uid,
                 d.q.map(f32b).unwrap_or_else(|| "n".into()),
                 f32b(d.l),
@@ -268,7 +285,8 @@ fn dets_text(ds: &[Det]) -> String {
                 match &d.feat {
                     None => "-".to_string(),
                     Some(v) => v.iter().map(|x| f32b(*x)).collect::<Vec<_>>().join("/"),
-                }
+                },
+                if d.cc == 0 { String::new() } else { format!(",{}", d.cc) }
             )
         })
         .collect::<Vec<_>>()
@@ -276,7 +294,7 @@ fn dets_text(ds: &[Det]) -> String {
 }
 
 fn bbox_of(d: &Det) -> Universal2DBox {
-    Universal2DBox::ltwh_with_confidence(d.l, d.t, d.w, d.h, conf_of(d.uid))
+    Universal2DBox::ltwh_with_confidence(d.l, d.t, d.w, d.h, conf_of(d))
 }
 
 /// (quality bits, feature lanes bits) -> uid
@@ -611,7 +629,22 @@ fn visual_prepare(
                         track_observation: o,
                     };
                     if let Some((Some(w), _)) = guarded(|| raw_metric.metric(&mq)).flatten() {
-                        println!("pos {} {} {} {} {} {}", k, j, d.uid, t.get_track_id(), f32b(w), (w * 1_000_000.0f32) as i64);
+                        // also the bare IoU of the two boxes and the candidate box confidence (for the independent
+                        // re-derivation of conf = max(confidence, positional_min_confidence))
+                        let cb = cobs.attr().as_ref().unwrap().bbox_opt().as_ref();
+                        let tb = o.attr().as_ref().unwrap().bbox_opt().as_ref();
+                        let iou = guarded(|| <Universal2DBox as similari::track::ObservationAttributes>::calculate_metric_object(&cb, &tb)).flatten();
+                        println!(
+                            "pos {} {} {} {} {} {} {} {}",
+                            k,
+                            j,
+                            d.uid,
+                            t.get_track_id(),
+                            f32b(w),
+                            (w * 1_000_000.0f32) as i64,
+                            iou.map(f32b).unwrap_or_else(|| "-".into()),
+                            cb.map(|b| f32b(b.confidence)).unwrap_or_else(|| "-".into())
+                        );
                     }
                 }
                 if !fds.is_empty() {
@@ -1066,7 +1099,7 @@ fn gen_c13(k: usize, rng: &mut Rng, tier_long: bool) -> Spec {
             } else {
                 None
             };
-            dets.push(Det { uid, q, l, t, w, h, feat });
+            dets.push(Det { uid, q, l, t, w, h, feat, cc: 0 });
             uid += 1;
         }
         s.calls.push((scene, dets));
@@ -1100,6 +1133,12 @@ fn gen_c12(k: usize, rng: &mut Rng) -> Spec {
         s.ownuse = *rng.pick(&[0.0, 0.25, 0.5]);
         s.owncol = *rng.pick(&[0.0, 0.25, 0.5]);
     }
+    // positional_min_confidence 0.1 / 0.5 / 0.8 and detection confidences about 0.05 / 0.2 / 0.5 / 1.0: a confidence below the
+    // minimum is raised to it in the positional metric (as in SORT). A third of the histories are feature-less, so that the
+    // positional stage decides everything
+    s.minconf = *rng.pick(&[0.1f32, 0.5, 0.8]);
+    let featureless = rng.chance(1, 3);
+    let low_conf = rng.chance(1, 2);
     let nobj = 2 + rng.below(4) as usize;
     let dim = *rng.pick(&[2usize, 3, 4, 8, 10]);
     let ncalls = 8 + rng.below(28) as usize;
@@ -1165,7 +1204,7 @@ fn gen_c12(k: usize, rng: &mut Rng) -> Spec {
             // quality: grid value, made unique per detection far below the grid step (identifies the detection)
             let qb = if rng.chance(1, 5) { *rng.pick(&[0.0f32, 0.125, 0.25, 0.375]) } else { *rng.pick(&[0.5f32, 0.625, 0.75, 0.875]) };
             let q = if rng.chance(1, 10) { None } else { Some(qb + uid as f32 / 1048576.0) };
-            let feat = if rng.chance(1, 8) {
+            let feat = if featureless || rng.chance(1, 8) {
                 None
             } else {
                 let mut v = ident[ob].clone();
@@ -1182,7 +1221,8 @@ fn gen_c12(k: usize, rng: &mut Rng) -> Spec {
                 }
                 Some(v)
             };
-            dets.push(Det { uid, q, l, t, w, h, feat });
+            let cc = if low_conf { *rng.pick(&[1u8, 2, 2, 3, 4, 0]) } else { 0 };
+            dets.push(Det { uid, q, l, t, w, h, feat, cc });
             uid += 1;
         }
         rng.shuffle(&mut dets);
@@ -1227,7 +1267,7 @@ fn gen_c01_crowded(k: usize, rng: &mut Rng) -> Spec {
                 if uid >= 2040 {
                     break;
                 }
-                dets.push(Det { uid, q: Some(0.75), l, t, w: 20.0, h: 30.0, feat: feat.clone() });
+                dets.push(Det { uid, q: Some(0.75), l, t, w: 20.0, h: 30.0, feat: feat.clone(), cc: 0 });
                 uid += 1;
             }
         }
@@ -1309,7 +1349,7 @@ fn gen_c01(k: usize, rng: &mut Rng) -> Spec {
                     break;
                 }
                 let (dl, dt) = if c == 0 || rng.chance(1, 2) { (0.0, 0.0) } else { (rng.dyadic(-8, 8, 2), rng.dyadic(-8, 8, 2)) };
-                dets.push(Det { uid, q, l: l + dl, t: t + dt, w, h, feat: feat.clone() });
+                dets.push(Det { uid, q, l: l + dl, t: t + dt, w, h, feat: feat.clone(), cc: 0 });
                 uid += 1;
             }
         }
@@ -1420,7 +1460,7 @@ fn gen_c04(k: usize, rng: &mut Rng) -> Spec {
             } else {
                 None
             };
-            dets.push(Det { uid, q, l, t, w, h, feat });
+            dets.push(Det { uid, q, l, t, w, h, feat, cc: 0 });
             uid += 1;
         }
         s.calls.push((scene as u64, dets));
@@ -1781,7 +1821,7 @@ fn gen_c03(k: usize, rng: &mut Rng) -> Spec {
                         continue;
                     }
                     let feat = if rng.below(100) < pfeat { Some(vec![ob as f32 + 1.0, rng.dyadic(-4, 4, 3), uid as f32 / 64.0]) } else { None };
-                    dets.push(Det { uid, q: Some(0.75), l: 10.0 + ob as f32 * 50.0 + rng.dyadic(0, 4, 2), t: 10.0, w: 20.0, h: 30.0, feat });
+                    dets.push(Det { uid, q: Some(0.75), l: 10.0 + ob as f32 * 50.0 + rng.dyadic(0, 4, 2), t: 10.0, w: 20.0, h: 30.0, feat, cc: 0 });
                     uid += 1;
                 }
             }
@@ -1865,7 +1905,7 @@ fn gen_c15(k: usize, rng: &mut Rng) -> Spec {
                     (10.0 + b as f32 * dx + rng.dyadic(0, 3, 2), 10.0 + b as f32 * dy + rng.dyadic(0, 3, 2), 20.0 + rng.dyadic(0, 4, 1), 32.0 + rng.dyadic(0, 4, 1))
                 };
                 let feat = if rng.chance(5, 6) { Some(vec![uid as f32, rng.dyadic(-8, 8, 2), rng.dyadic(-8, 8, 2)]) } else { None };
-                dets.push(Det { uid, q: Some(*rng.pick(&[0.5f32, 0.75, 1.0])), l, t, w, h, feat });
+                dets.push(Det { uid, q: Some(*rng.pick(&[0.5f32, 0.75, 1.0])), l, t, w, h, feat, cc: 0 });
                 uid += 1;
             }
             s.calls.push((*sc, dets));
